@@ -78,6 +78,26 @@ Section Try.
   Proof. exact (infallible_is_try). Qed.
 End Try.
 
+(* ---- end to end: the drivers applied to a program (Hand/Prog.v, evaluated over the translated operations) return the derivatives of the real function the
+   program computes -- C05 composed with C03.  fR p x is the real evaluation with one input; replace_at x i t puts t at position i. *)
+From ND Require Import Prog C03_proofs C05_programs.
+Theorem C05_first_derivative_of_program : forall p x, okR (x :: nil) p ->
+  exists l, first_derivative (fun d => eval (d :: nil) p) x = (fR p x, l) /\ is_derive (fR p) x l.
+Proof. exact first_derivative_of_program. Qed.
+Theorem C05_second_derivative_of_program : forall p x, okR (x :: nil) p ->
+  exists l1 l2 (f' : R -> R), second_derivative (fun d => eval (d :: nil) p) x = (fR p x, l1, l2) /\
+    locally x (fun t => is_derive (fR p) t (f' t)) /\ l1 = f' x /\ is_derive f' x l2.
+Proof. exact second_derivative_of_program. Qed.
+Theorem C05_third_derivative_of_program : forall p x, okR (x :: nil) p ->
+  exists l1 l2 l3 (f' f'' : R -> R), third_derivative (fun d => eval (d :: nil) p) x = (fR p x, l1, l2, l3) /\
+    locally x (fun t => is_derive (fR p) t (f' t)) /\ locally x (fun t => is_derive f' t (f'' t)) /\ l1 = f' x /\ l2 = f'' x /\ is_derive f'' x l3.
+Proof. exact third_derivative_of_program. Qed.
+(* gradient: any number of variables; entry i is the partial derivative with respect to x_i *)
+Theorem C05_gradient_of_program : forall p (x : list R), okR x p ->
+  exists G, gradient (fun v => eval v p) x = (eval (T:=R) x p, G) /\
+    forall i xi, nth_error x i = Some xi -> is_derive (fun t => eval (T:=R) (replace_at x i t) p) xi (mget G i 0).
+Proof. exact gradient_of_program. Qed.
+
 (* non-vacuity: a three-element input has a third element *)
 Example C05_seed_example : exists s, nth_error (seed_gradient [1; 2; 3]) 2 = Some s /\ part_DualVec s (2%nat :: nil) = 1 /\ part_DualVec s (0%nat :: nil) = 0.
 Proof. eexists; split; [reflexivity|]. split; rcbv; reflexivity. Qed.
@@ -94,5 +114,9 @@ Definition C05_bundle := (C05_seed_gradient_spec,
   C05_scalar_extract,
   C05_scalar_seeds,
   @C05_try_err,
-  @C05_infallible_is_try).
+  @C05_infallible_is_try,
+  C05_first_derivative_of_program,
+  C05_second_derivative_of_program,
+  C05_third_derivative_of_program,
+  C05_gradient_of_program).
 Print Assumptions C05_bundle.
